@@ -25,6 +25,7 @@ def run(repo, report, tier):
     report.guard("C09.R1", "MultipleAdapters.match_to", r1_best, repo, report)
     report.guard("C09.R2", "AdapterCutter.match_and_trim", r2_rounds, repo, report)
     report.guard("C09.R4", "LinkedAdapter.match_to", r4_linked, repo, report)
+    report.guard("C09.R4", "LinkedMatch score and errors", r4_linked_totals, repo, report)
     report.guard("C09.R5", "parser._make_linked_adapter", r5_defaults, repo, report)
     report.guard("C09.R6", "AdapterCutter.__call__", r6_trimmed, repo, report)
 
@@ -384,3 +385,35 @@ def r6_trimmed(repo, report):
     report.saw(function="AdapterCutter.__call__", valuations=len(rows))
     report.ob("C09.R6", "AdapterCutter.__call__", not bad and len(rows) == 2, facts={"paths": len(rows), "problems": [str(b)[:200] for b in bad[:3]]},
               expected="with_adapters += 1 and one add_match per match (on the statistics of its own adapter) iff matches; info.matches extended by the same list", loc=repo.loc(fn), cases=len(rows), why=str(bad[0])[:200] if bad else "")
+
+
+def r4_linked_totals(repo, report):
+    """A linked match competes with other adapters (R1) through its score and errors: both must be the sums over the
+    parts that were found."""
+    cls = repo.cls("LinkedMatch")
+    for prop_name in ("score", "errors"):
+        fn = cls.methods.get(prop_name)
+        if fn is None:
+            report.unrecognised("C09.R4", f"LinkedMatch.{prop_name}", "property not found", repo.loc(cls.node))
+            continue
+        rows = explore(repo, strip_docstring(fn.body), {"self": Obj("self", nonnull=True)}, inline=False)
+        bad = []
+        for r in rows:
+            f, b = r.valuation.get("isnone:self.front_match"), r.valuation.get("isnone:self.back_match")
+            if f is None:
+                f = {True: False, False: True}.get(r.valuation.get("truthy:self.front_match"))
+            if b is None:
+                b = {True: False, False: True}.get(r.valuation.get("truthy:self.back_match"))
+            if f is None or b is None:
+                bad.append(("a part is added without testing whether it was found", r.describe()["valuation"]))
+                continue
+            want = Lin.k(0)
+            if f is False:
+                want = want + Lin.atom(f"self.front_match.{prop_name}")
+            if b is False:
+                want = want + Lin.atom(f"self.back_match.{prop_name}")
+            got = vkey(r.exit[1]) if r.exit[0] == "return" else r.exit[0]
+            if got != want.key():
+                bad.append(({"front found": not f, "back found": not b}, got, want.key()))
+        report.ob("C09.R4", f"LinkedMatch.{prop_name}", not bad and len(rows) == 4, facts={"paths": len(rows), "problems": [str(x)[:200] for x in bad[:2]]},
+                  expected=f"sum of the {prop_name} of the parts that were found", loc=repo.loc(fn), cases=len(rows), why=str(bad[0])[:200] if bad else "")
